@@ -94,7 +94,7 @@ def build_case(data, mode, nmax):
 def _shard(ctx, shard, nshards):
     native.setup()
     nmax = ctx.scale(4, 5)
-    for mode, n_examples, size in (('table', ctx.scale(500, 3000), 600), ('real', ctx.scale(50, 300), 700)):
+    for mode, n_examples, size in (('table', ctx.scale(500, 12000), 600), ('real', ctx.scale(50, 1000), 700)):
         def factory(mode=mode, n_examples=n_examples, size=size):
             @seed(runner.hseed(ctx, 10 if mode == 'table' else 110))
             @runner.hsettings(n_examples)
